@@ -1,9 +1,258 @@
-import Proofs.Lemmas.Collocate
+import Proofs.Lemmas.History
 import Proofs.Audit
+
+/-!
+# C04 — `Collocator.collocate` finds exactly the point pairs within distance and interval
+
+Property theorems only.  Helper lemmas: `Proofs/Lemmas/{GeoIndex,Collocate,Binning,
+Assemble,Pipeline,Main,History}.lean`; model: `Model/Collocate.lean`, `Model/GeoIndex.lean`.
+
+Setting (all universally quantified): positions `Pos` with decidable equality and a
+symmetric tree distance `dist : Pos → Pos → α` into a linearly ordered field (`near` =
+"distance in km ≤ max_distance"); any tree `T` obeying the contract `TreeOK dist T`
+(hypothesis); any family of permutations `shuf` (`ValidShuf`: what the shuffles of the
+GeoIndex constructions may draw); any tuning (`magnitude_factor`, the threshold of the
+pre-binned path, and — when that path is taken — any *valid cut* `ValidCut` of the
+time-sorted larger dataset into consecutive labelled runs, which abstracts pandas'
+`Grouper` for every `bin_factor`); any object state satisfying `Inv` (shown to hold after
+every history of calls).  Datasets are lists of labelled lines with cells (linear data =
+one cell per line; NaN position = `none`), times are integer ns, `mi` integer ns.
+-/
 
 open Geo Colloc
 
-theorem C04_grid_flatten_index (npos l c : Nat) (hc : c < npos) :
-    unflatIndex npos (flatIndex npos l c) = (l, c) := unflat_flat npos l c hc
+section C04
+variable {Pos α : Type} [DecidableEq Pos] [Field α] [LinearOrder α] [IsStrictOrderedRing α]
 
-assert_axioms C04_grid_flatten_index
+/-- **C04_binning_complete_nodup** — `spatial_search_with_temporal_binning`: for
+time-sorted data, **every** valid cut of the larger dataset into labelled runs (hence every
+`bin_factor`), either size ordering (dataset swap), every object state: the concatenation
+over the bins of (bin primaries × sliced secondaries), shifted by the `searchsorted`
+offsets, contains only pairs within the distance, contains **every** pair within distance
+with `|Δt| < max_interval`, contains no pair twice, and the distances are aligned. -/
+theorem C04_binning_complete_nodup (dist : Pos → Pos → α) (hsym : ∀ a b, dist a b = dist b a)
+    (T : TreeFn Pos α) (hT : TreeOK dist T) (shuf : Nat → List Pos → List Nat)
+    (hshuf : ValidShuf shuf) (mf : Nat) (mi : Int) (r : α) (st : SState Pos) (hinv : Inv st)
+    (prim sec : List (NPt Pos))
+    (hP : (prim.map (·.time)).Pairwise (· ≤ ·)) (hS : (sec.map (·.time)).Pairwise (· ≤ ·))
+    (cut : List (Int × Nat))
+    (hcut : ValidCut ((if sec.length > prim.length then sec else prim).map (·.time)) cut 0) :
+    ∃ st' pairs ds, binnedSearch T shuf mf mi r st prim sec cut = (st', .ok (pairs, ds)) ∧
+      Inv st' ∧ CandSpec dist r mi prim sec pairs ds :=
+  binnedSearch_spec dist hsym T hT shuf hshuf mf mi r st hinv prim sec hP hS cut hcut
+
+/-- **C04_pairs_spec** — `collocate(primary, secondary, max_interval, max_distance,
+start, end, …)` on non-empty datasets returns (never raises), keeps the object
+invariant, and the collocations of the outcome, identified by the carried ids, are
+**exactly** `{(i, j) | both positions valid ∧ distance ≤ max_distance ∧ |tᵢ − tⱼ| <
+max_interval ∧ both times in [start, end]}` with `⌊|Δt|⌋` seconds and the pair's distance
+stored alongside; the outcome is `None` iff that set is empty; with unique ids no pair is
+reported twice.  Covers the direct and the pre-binned path, the cached-index state
+machine, NaN filtering, sorting, compaction. -/
+theorem C04_pairs_spec (dist : Pos → Pos → α) (hsym : ∀ a b, dist a b = dist b a)
+    (T : TreeFn Pos α) (hT : TreeOK dist T) (shuf : Nat → List Pos → List Nat)
+    (hshuf : ValidShuf shuf) (tn : Tuning) (st : SState Pos) (hinv : Inv st)
+    (p s : List (Line Pos)) (hp : p ≠ []) (hs : s ≠ []) (mi : Int) (r : α) (start stop : Option Int)
+    (hcut : ∀ lo hi, commonWindow p s mi start stop = some (lo, hi) →
+      CutOK tn (dropNan (flatten (selectLines p lo hi))) (dropNan (flatten (selectLines s lo hi)))) :
+    ∃ st' out, collocate T shuf tn st p s mi r start stop = (st', .ok out) ∧ Inv st' ∧
+      (∀ i j iv d, ((i, j), iv, d) ∈ outPairs out ↔ Collocated dist r mi start stop p s i j iv d) ∧
+      (out = none ↔ ∀ i j iv d, ¬ Collocated dist r mi start stop p s i j iv d) ∧
+      (((flatten p).map (·.id)).Nodup → ((flatten s).map (·.id)).Nodup →
+        ((outPairs out).map (·.1)).Nodup) :=
+  collocate_spec dist hsym T hT shuf hshuf tn st hinv p s hp hs mi r start stop hcut
+
+theorem ivOf_comm (t1 t2 : Int) : ivOf t1 t2 = ivOf t2 t1 := by
+  unfold ivOf
+  have : (t1 - t2).natAbs = (t2 - t1).natAbs := by omega
+  rw [this]
+
+theorem collocated_swap (dist : Pos → Pos → α) (hsym : ∀ a b, dist a b = dist b a) (r : α)
+    (mi : Int) (start stop : Option Int) (p s : List (Line Pos)) (i j : Nat) (iv : Int) (d : α) :
+    Collocated dist r mi start stop p s i j iv d ↔ Collocated dist r mi start stop s p j i iv d := by
+  constructor
+  · rintro ⟨x, hx, y, hy, h1, h2, px, py, h3, h4, h5, h6, u1, u2, h7, h8⟩
+    exact ⟨y, hy, x, hx, h2, h1, py, px, h4, h3, (near_symm dist hsym r _ _).mp h5, ⟨h6.2, h6.1⟩,
+      u2, u1, by rw [h7, ivOf_comm], by rw [h8]; simp [distKm, hsym px py]⟩
+  · rintro ⟨x, hx, y, hy, h1, h2, px, py, h3, h4, h5, h6, u1, u2, h7, h8⟩
+    exact ⟨y, hy, x, hx, h2, h1, py, px, h4, h3, (near_symm dist hsym r _ _).mp h5, ⟨h6.2, h6.1⟩,
+      u2, u1, by rw [h7, ivOf_comm], by rw [h8]; simp [distKm, hsym px py]⟩
+
+/-- **C04_swap_transpose** — swapping primary and secondary transposes the result (same
+intervals and distances), for any two object states, tunings, trees and permutations. -/
+theorem C04_swap_transpose (dist : Pos → Pos → α) (hsym : ∀ a b, dist a b = dist b a)
+    (T T' : TreeFn Pos α) (hT : TreeOK dist T) (hT' : TreeOK dist T')
+    (shuf shuf' : Nat → List Pos → List Nat) (hshuf : ValidShuf shuf) (hshuf' : ValidShuf shuf')
+    (tn tn' : Tuning) (st st' : SState Pos) (hinv : Inv st) (hinv' : Inv st')
+    (p s : List (Line Pos)) (hp : p ≠ []) (hs : s ≠ []) (mi : Int) (r : α) (start stop : Option Int)
+    (hcut : ∀ lo hi, commonWindow p s mi start stop = some (lo, hi) →
+      CutOK tn (dropNan (flatten (selectLines p lo hi))) (dropNan (flatten (selectLines s lo hi))))
+    (hcut' : ∀ lo hi, commonWindow s p mi start stop = some (lo, hi) →
+      CutOK tn' (dropNan (flatten (selectLines s lo hi))) (dropNan (flatten (selectLines p lo hi)))) :
+    ∃ s1 out s2 out', collocate T shuf tn st p s mi r start stop = (s1, .ok out) ∧
+      collocate T' shuf' tn' st' s p mi r start stop = (s2, .ok out') ∧
+      (∀ i j iv d, ((i, j), iv, d) ∈ outPairs out ↔ ((j, i), iv, d) ∈ outPairs out') ∧
+      (out = none ↔ out' = none) := by
+  obtain ⟨s1, out, e1, _, m1, n1, _⟩ :=
+    collocate_spec dist hsym T hT shuf hshuf tn st hinv p s hp hs mi r start stop hcut
+  obtain ⟨s2, out', e2, _, m2, n2, _⟩ :=
+    collocate_spec dist hsym T' hT' shuf' hshuf' tn' st' hinv' s p hs hp mi r start stop hcut'
+  refine ⟨s1, out, s2, out', e1, e2, ?_, ?_⟩
+  · intro i j iv d
+    rw [m1, m2, collocated_swap dist hsym]
+  · rw [n1, n2]
+    constructor
+    · intro h i j iv d hc; exact h j i iv d ((collocated_swap dist hsym r mi start stop p s j i iv d).mpr hc)
+    · intro h i j iv d hc; exact h j i iv d ((collocated_swap dist hsym r mi start stop p s i j iv d).mp hc)
+
+/-- **C04_tuning_invariant** — the set of collocations (with intervals and distances)
+and the `None`-ness are the same for every two configurations: `magnitude_factor`, the
+direct/pre-binned threshold, the cut (`bin_factor`), the tree (`leaf_size`, class), the
+permutations, and the object state. -/
+theorem C04_tuning_invariant (dist : Pos → Pos → α) (hsym : ∀ a b, dist a b = dist b a)
+    (T T' : TreeFn Pos α) (hT : TreeOK dist T) (hT' : TreeOK dist T')
+    (shuf shuf' : Nat → List Pos → List Nat) (hshuf : ValidShuf shuf) (hshuf' : ValidShuf shuf')
+    (tn tn' : Tuning) (st st' : SState Pos) (hinv : Inv st) (hinv' : Inv st')
+    (p s : List (Line Pos)) (hp : p ≠ []) (hs : s ≠ []) (mi : Int) (r : α) (start stop : Option Int)
+    (hcut : ∀ lo hi, commonWindow p s mi start stop = some (lo, hi) →
+      CutOK tn (dropNan (flatten (selectLines p lo hi))) (dropNan (flatten (selectLines s lo hi))))
+    (hcut' : ∀ lo hi, commonWindow p s mi start stop = some (lo, hi) →
+      CutOK tn' (dropNan (flatten (selectLines p lo hi))) (dropNan (flatten (selectLines s lo hi)))) :
+    ∃ s1 out s2 out', collocate T shuf tn st p s mi r start stop = (s1, .ok out) ∧
+      collocate T' shuf' tn' st' p s mi r start stop = (s2, .ok out') ∧
+      (∀ x, x ∈ outPairs out ↔ x ∈ outPairs out') ∧ (out = none ↔ out' = none) := by
+  obtain ⟨s1, out, e1, _, m1, n1, _⟩ :=
+    collocate_spec dist hsym T hT shuf hshuf tn st hinv p s hp hs mi r start stop hcut
+  obtain ⟨s2, out', e2, _, m2, n2, _⟩ :=
+    collocate_spec dist hsym T' hT' shuf' hshuf' tn' st' hinv' p s hp hs mi r start stop hcut'
+  refine ⟨s1, out, s2, out', e1, e2, ?_, by rw [n1, n2]⟩
+  rintro ⟨⟨i, j⟩, iv, d⟩
+  rw [m1, m2]
+
+/-- **C04_history_independent** — a Collocator reused after **any** sequence of earlier
+calls (any data, thresholds, tunings, cuts — valid or not — succeeding, returning `None`
+or raising) answers like a fresh one: same collocations, same `None`-ness.  The cache is
+valid exactly when the coordinates are equal (`isCached`), which is what `Inv` needs. -/
+theorem C04_history_independent (dist : Pos → Pos → α) (hsym : ∀ a b, dist a b = dist b a)
+    (T : TreeFn Pos α) (hT : TreeOK dist T) (shuf : Nat → List Pos → List Nat)
+    (hshuf : ValidShuf shuf)
+    (history : List (Tuning × List (Line Pos) × List (Line Pos) × Int × α × Option Int × Option Int))
+    (tn : Tuning) (p s : List (Line Pos)) (hp : p ≠ []) (hs : s ≠ []) (mi : Int) (r : α)
+    (start stop : Option Int)
+    (hcut : ∀ lo hi, commonWindow p s mi start stop = some (lo, hi) →
+      CutOK tn (dropNan (flatten (selectLines p lo hi))) (dropNan (flatten (selectLines s lo hi)))) :
+    Inv (runHistory T shuf {} history) ∧
+    ∃ s1 out s2 out0,
+      collocate T shuf tn (runHistory T shuf {} history) p s mi r start stop = (s1, .ok out) ∧
+      collocate T shuf tn {} p s mi r start stop = (s2, .ok out0) ∧
+      (∀ x, x ∈ outPairs out ↔ x ∈ outPairs out0) ∧ (out = none ↔ out0 = none) := by
+  have hinv := runHistory_inv T shuf hshuf ({} : SState Pos) inv_init history
+  refine ⟨hinv, ?_⟩
+  exact C04_tuning_invariant dist hsym T T hT hT shuf shuf hshuf hshuf tn tn _ _ hinv inv_init
+    p s hp hs mi r start stop hcut hcut
+
+theorem ivOf_spec (t1 t2 : Int) :
+    0 ≤ ivOf t1 t2 ∧ ivOf t1 t2 * 1000000000 ≤ |t1 - t2| ∧ |t1 - t2| < (ivOf t1 t2 + 1) * 1000000000 := by
+  unfold ivOf
+  have h : |t1 - t2| = ((t1 - t2).natAbs : Int) := (Int.natCast_natAbs _).symm
+  rw [h]
+  refine ⟨by positivity, ?_, ?_⟩ <;> omega
+
+/-- **C04_interval_distance_values** — every stored collocation carries the interval
+`⌊|Δt| / 1 s⌋` (whole seconds, truncated — the comparison with `max_interval` used the
+untruncated `|Δt|`) and the distance of exactly that pair of points, in km (`dist/1000`). -/
+theorem C04_interval_distance_values (dist : Pos → Pos → α) (hsym : ∀ a b, dist a b = dist b a)
+    (T : TreeFn Pos α) (hT : TreeOK dist T) (shuf : Nat → List Pos → List Nat)
+    (hshuf : ValidShuf shuf) (tn : Tuning) (st : SState Pos) (hinv : Inv st)
+    (p s : List (Line Pos)) (hp : p ≠ []) (hs : s ≠ []) (mi : Int) (r : α) (start stop : Option Int)
+    (hcut : ∀ lo hi, commonWindow p s mi start stop = some (lo, hi) →
+      CutOK tn (dropNan (flatten (selectLines p lo hi))) (dropNan (flatten (selectLines s lo hi)))) :
+    ∃ st' out, collocate T shuf tn st p s mi r start stop = (st', .ok out) ∧
+      ∀ i j iv d, ((i, j), iv, d) ∈ outPairs out →
+        ∃ x ∈ flatten p, ∃ y ∈ flatten s, x.id = i ∧ y.id = j ∧ ∃ px py, x.pos = some px ∧ y.pos = some py ∧
+          0 ≤ iv ∧ iv * 1000000000 ≤ |x.time - y.time| ∧ |x.time - y.time| < (iv + 1) * 1000000000 ∧
+          |x.time - y.time| < mi ∧ d = dist px py / ((1000 : Nat) : α) := by
+  obtain ⟨st', out, e1, _, m1, _, _⟩ :=
+    collocate_spec dist hsym T hT shuf hshuf tn st hinv p s hp hs mi r start stop hcut
+  refine ⟨st', out, e1, ?_⟩
+  intro i j iv d hmem
+  obtain ⟨x, hx, y, hy, h1, h2, px, py, h3, h4, _, h6, _, _, rfl, rfl⟩ := (m1 i j iv d).mp hmem
+  obtain ⟨a1, a2, a3⟩ := ivOf_spec x.time y.time
+  refine ⟨x, hx, y, hy, h1, h2, px, py, h3, h4, a1, a2, a3, ?_, rfl⟩
+  rw [abs_lt]; exact ⟨by have := h6.2; omega, h6.1⟩
+
+end C04
+
+/-- **C04_grid_flatten** — stacking (scan line, scan position) row-major: the point at
+flat index `l·npos + c` of the flattened dataset is cell `c` of line `l` with the line's
+time broadcast, carrying its line label and scan position; `unflatIndex` inverts
+`flatIndex` (so pairs found on the flat index map back to (line, position)). -/
+theorem C04_grid_flatten {Pos : Type} (d : List (Line Pos)) (npos : Nat)
+    (hrect : ∀ l ∈ d, l.cells.length = npos) (l c : Nat) (ln : Line Pos) (cell : Cell Pos)
+    (hl : d[l]? = some ln) (hc : ln.cells[c]? = some cell) :
+    (flatten d)[flatIndex npos l c]? = some ⟨ln.time, cell.pos, cell.id, ln.label, c⟩ ∧
+    unflatIndex npos (flatIndex npos l c) = (l, c) ∧
+    (∀ k, flatIndex npos (unflatIndex npos k).1 (unflatIndex npos k).2 = k) := by
+  have hclt : c < npos := by
+    have := (List.getElem?_eq_some_iff.mp hc).1
+    rw [hrect ln (List.mem_of_getElem? hl)] at this; exact this
+  refine ⟨?_, unflat_flat npos l c hclt, flat_unflat npos⟩
+  induction d generalizing l with
+  | nil => simp at hl
+  | cons a rest ih =>
+    have ha : a.cells.length = npos := hrect a List.mem_cons_self
+    have hlen : (a.cells.zipIdx.map (fun cj => (⟨a.time, cj.1.pos, cj.1.id, a.label, cj.2⟩ : Pt Pos))).length
+        = npos := by simp [ha]
+    unfold flatten
+    rw [List.flatMap_cons]
+    cases l with
+    | zero =>
+      simp only [List.getElem?_cons_zero, Option.some.injEq] at hl
+      subst hl
+      rw [List.getElem?_append_left (by rw [hlen]; simp [flatIndex, hclt])]
+      simp [flatIndex, List.getElem?_map, List.getElem?_zipIdx, hc]
+    | succ l =>
+      have hl' : rest[l]? = some ln := by simpa using hl
+      have := ih (fun l hl => hrect l (List.mem_cons_of_mem _ hl)) l hl'
+      rw [List.getElem?_append_right (by rw [hlen]; simp [flatIndex]; nlinarith)]
+      rw [hlen]
+      have e : flatIndex npos (l + 1) c - npos = flatIndex npos l c := by
+        simp only [flatIndex]; rw [Nat.succ_mul]; omega
+      rw [e]
+      exact this
+
+/-! ## Non-vacuity: every hypothesis is satisfiable by concrete, non-trivial data -/
+
+example : Inv ({} : SState Int) := inv_init
+example : ValidShuf (fun _ (pts : List Int) => List.range pts.length) := fun _ _ => List.Perm.refl _
+example : ValidShuf (fun _ (pts : List Int) => (List.range pts.length).reverse) :=
+  fun _ _ => List.reverse_perm _
+example : TreeOK (fun a b : Rat => |a - b|) (bruteTree (fun a b : Rat => |a - b|)) :=
+  bruteTree_ok _
+/-- a valid cut with an empty run in the middle: times 0,5 | (nothing) | 12 -/
+example : ValidCut [0, 5, 12] [(0, 2), (6, 0), (12, 1)] 0 := by
+  refine ⟨?_, ?_, by simp, ?_, ?_, by simp, ?_, ?_, by simp, by simp [ValidCut]⟩ <;>
+    intro a t h1 h2 <;>
+    (rcases a with _ | _ | _ | a <;> simp at h2 <;> omega)
+
+-- executable sanity tests of the model over ℚ with the brute-force tree (tests, not theorems):
+-- positions are metres on a line, times ns; max_distance 1 km, max_interval 2 s
+private def exP : List (Line Rat) :=
+  [⟨7, 5000000000, [⟨some 0, 10⟩]⟩, ⟨3, 1000000000, [⟨some 900, 11⟩]⟩, ⟨9, 3000000000, [⟨none, 12⟩]⟩,
+   ⟨4, 9000000000, [⟨some 5000, 13⟩]⟩]
+private def exS : List (Line Rat) :=
+  [⟨1, 2500000000, [⟨some 100, 20⟩]⟩, ⟨2, 3000000000, [⟨some 1950, 21⟩]⟩, ⟨5, 9999999999, [⟨some 5000, 22⟩]⟩,
+   ⟨6, 7000000000, [⟨some 0, 23⟩]⟩]
+private def exRun (tn : Tuning) (st : SState Rat) :=
+  (collocate (bruteTree (fun a b : Rat => |a - b|)) (fun _ pts => (List.range pts.length).reverse) tn st
+    exP exS 2000000000 (1 : Rat) none none).2.toOption.map
+      (fun o => (outPairs o).map (fun x => (x.1, x.2.1)))
+-- direct path: 11–20 (800 m, 1.5 s), 13–22 (0 m, 0.999… s), 10–23 (0 m, 2 s: NOT < 2 s) is out
+#guard exRun {} {} == some [((11, 20), 1), ((13, 22), 0)]
+-- pre-binned path forced (thr = 0): the secondary has more valid points, so it is the binned side;
+-- a two-run cut of its sorted times 2.5 s, 3 s | 7 s, 9.99 s
+#guard exRun { thr := 0, cut := [(1000000000, 2), (4000000000, 2)] } {} == some [((11, 20), 1), ((13, 22), 0)]
+
+assert_axioms C04_binning_complete_nodup C04_pairs_spec C04_swap_transpose C04_tuning_invariant
+  C04_history_independent C04_interval_distance_values C04_grid_flatten collocated_swap ivOf_comm
+  ivOf_spec
